@@ -278,3 +278,46 @@ pub fn derive(m: &HashMap<String, String>) -> Value {
     };
     json!({"reproduced": reproduced, "real": format!("{real:?}"), "spec": spec, "inputs": {"channel": channel, "sender": sender, "prefix": prefix}})
 }
+
+/// C17: the model's store (keys, decode errors, filter verdicts), cursor and limit against the real `Batches` query.
+pub fn paginate(m: &HashMap<String, String>) -> Value {
+    let list = |k: &str| -> Vec<u64> { m.get(k).and_then(|s| serde_json::from_str::<Vec<i128>>(s).ok()).unwrap_or_default().into_iter().map(|x| x.max(0) as u64).collect() };
+    let keys = list("keys");
+    let err = list("err");
+    let filt = list("filt");
+    let sa = if geti(m, "start_after_present", 0) == 1 { Some(geti(m, "start_after", 0).max(0) as u64) } else { None };
+    let limit = if geti(m, "limit_present", 0) == 1 { Some(geti(m, "limit", 0).clamp(0, u32::MAX as i128) as u32) } else { None };
+    let with_filter = geti(m, "filter_present", 0) == 1;
+    let mut deps = cosmwasm_std::testing::mock_dependencies();
+    for (i, k) in keys.iter().enumerate() {
+        let mut b = Batch::new(*k, Uint128::new(7), 100);
+        if filt.get(i).cloned().unwrap_or(0) == 1 {
+            b.update_status(BatchStatus::Submitted, Some(5));
+            b.expected_native_unstaked = Some(Uint128::new(3));
+        }
+        staking::state::BATCHES.save(&mut deps.storage, *k, &b).unwrap();
+        if err.get(i).cloned().unwrap_or(0) == 1 {
+            // undecodable value under the same key
+            let key = staking::state::BATCHES.key(*k);
+            let raw: Vec<u8> = key.to_vec();
+            cosmwasm_std::Storage::set(&mut deps.storage, &raw, b"{not json");
+        }
+    }
+    let status = if with_filter { Some(BatchStatus::Submitted) } else { None };
+    let got = symcore::catch(|| staking::query::query_batches(deps.as_ref(), sa, limit, status));
+    let want: Vec<u64> = keys
+        .iter()
+        .enumerate()
+        .filter(|(i, k)| sa.map(|s| **k > s).unwrap_or(true) && err.get(*i).cloned().unwrap_or(0) == 0 && (!with_filter || filt.get(*i).cloned().unwrap_or(0) == 1))
+        .map(|(_, k)| *k)
+        .take(limit.map(|l| l as usize).unwrap_or(usize::MAX))
+        .collect();
+    match got {
+        Err(p) => json!({"reproduced": true, "why": format!("panic: {p}")}),
+        Ok(Err(e)) => json!({"reproduced": true, "why": format!("query error: {e}")}),
+        Ok(Ok(r)) => {
+            let ids: Vec<u64> = r.batches.iter().map(|b| b.id).collect();
+            json!({"reproduced": ids != want, "returned": ids, "expected": want, "inputs": {"keys": keys, "err": err, "filt": filt, "start_after": sa, "limit": limit, "filter": with_filter}})
+        }
+    }
+}
